@@ -20,7 +20,8 @@
      call                   one invocation of the user's objective: c_no (global call number =
                             number of earlier invocations), c_id (design), c_att (attempt 0..4 inside
                             its job), c_vec (the vector the objective was given)
-     outcome                Ok costs | Transient (TimeoutError / RuntimeError) | Fatal kind
+     outcome                Ok costs | Transient (TimeoutError, RuntimeError and its subclasses) |
+                            Fatal kind (any other exception; kind = the harness's code of its class)
      env                    the external world, an INPUT of the model (never an axiom):
                               e_signs  : list bool        Problem.signs, true = maximise (-1)
                               e_obj    : call -> outcome  objective / fault schedule; may look at the call
